@@ -1,16 +1,5 @@
 ; lemmas / axioms about the generated Keccak specification
 
-; the digest depends only on the first n message bits
-(axiom keccak_ext
-  (forall ((a (Array Int Int)) (c (Array Int Int)) (n Int) (d Int))
-    (! (=> (forall ((t Int)) (=> (and (<= 0 t) (< t n)) (= (select a t) (select c t))))
-           (= (keccak.digest a n d) (keccak.digest c n d)))
-       :pattern ((keccak.digest a n d) (keccak.digest c n d)))))
-; digest bits are bits
-(axiom digest_bool
-  (forall ((a (Array Int Int)) (n Int) (d Int))
-    (! (bits.allboolFrom (keccak.digest a n d) 0 256) :pattern ((keccak.digest a n d)))))
-
 ; a state rebuilt from the 25 lanes of a round's output is that output (the round writes exactly lanes 0..24 over zero)
 (lemma round_norm
   (forall ((s (Array Int (_ BitVec 64))) (rc (_ BitVec 64)))
@@ -44,6 +33,19 @@
        :pattern ((keccak.lanebool a off))))
   :reveal (keccak.lanebool) :lemmas (allboolFrom_elem allboolFrom_intro))
 
+; same, for one offset in both arrays (far fewer instantiations than lane_ext)
+(lemma lane_ext_same
+  (forall ((a (Array Int Int)) (c (Array Int Int)) (i Int))
+    (! (=> (forall ((z Int)) (=> (and (<= i z) (< z (+ i 64))) (= (select a z) (select c z)))) (= (keccak.lane a i) (keccak.lane c i)))
+       :pattern ((keccak.lane a i) (keccak.lane c i))))
+  :reveal (keccak.lane))
+; xoring a block in depends only on that block's 1088 bits
+(lemma xorBlock_ext
+  (forall ((s (Array Int (_ BitVec 64))) (a (Array Int Int)) (c (Array Int Int)) (b Int))
+    (! (=> (forall ((t Int)) (=> (and (<= (* 1088 b) t) (< t (+ (* 1088 b) 1088))) (= (select a t) (select c t))))
+           (= (keccak.xorBlock s a b) (keccak.xorBlock s c b)))
+       :pattern ((keccak.xorBlock s a b) (keccak.xorBlock s c b))))
+  :reveal (keccak.xorBlock) :lemmas (lane_ext_same))
 ; the sponge state after k blocks depends only on the first 1088*k padded bits
 (lemma absorb_ext
   (forall ((a (Array Int Int)) (c (Array Int Int)) (k Int))
@@ -52,4 +54,31 @@
        :pattern ((keccak.absorb a k) (keccak.absorb c k))))
   :induct k :inst (a c (- k 1))
   :unfold ((keccak.absorb a k) (keccak.absorb c k))
-  :reveal (keccak.xorBlock) :lemmas (lane_ext))
+  :lemmas (xorBlock_ext))
+
+; the state of 25 zero lanes is the zero state
+(lemma st25_zero (= (keccak.st25 #x0000000000000000 #x0000000000000000 #x0000000000000000 #x0000000000000000 #x0000000000000000 #x0000000000000000 #x0000000000000000 #x0000000000000000 #x0000000000000000 #x0000000000000000 #x0000000000000000 #x0000000000000000 #x0000000000000000 #x0000000000000000 #x0000000000000000 #x0000000000000000 #x0000000000000000 #x0000000000000000 #x0000000000000000 #x0000000000000000 #x0000000000000000 #x0000000000000000 #x0000000000000000 #x0000000000000000 #x0000000000000000) keccak.zero) :reveal (keccak.st25 keccak.zero))
+
+; a rate block (1088 bits) is boolean iff its 17 lanes are
+(lemma block_bool
+  (forall ((a (Array Int Int)) (off Int))
+    (! (= (bits.allboolFrom a off (+ off 1088)) (and (keccak.lanebool a off) (keccak.lanebool a (+ off 64)) (keccak.lanebool a (+ off 128)) (keccak.lanebool a (+ off 192)) (keccak.lanebool a (+ off 256)) (keccak.lanebool a (+ off 320)) (keccak.lanebool a (+ off 384)) (keccak.lanebool a (+ off 448)) (keccak.lanebool a (+ off 512)) (keccak.lanebool a (+ off 576)) (keccak.lanebool a (+ off 640)) (keccak.lanebool a (+ off 704)) (keccak.lanebool a (+ off 768)) (keccak.lanebool a (+ off 832)) (keccak.lanebool a (+ off 896)) (keccak.lanebool a (+ off 960)) (keccak.lanebool a (+ off 1024))))
+       :pattern ((bits.allboolFrom a off (+ off 1088)))))
+  :lemmas (lanebool_range allboolFrom_append))
+
+; the digest depends only on the first n message bits
+(lemma keccak_ext
+  (forall ((a (Array Int Int)) (c (Array Int Int)) (n Int) (d Int))
+    (! (=> (forall ((t Int)) (=> (and (<= 0 t) (< t n)) (= (select a t) (select c t))))
+           (= (keccak.digest a n d) (keccak.digest c n d)))
+       :pattern ((keccak.digest a n d) (keccak.digest c n d))))
+  :reveal (keccak.digest keccak.final) :lemmas (keccak_pad_sel absorb_ext))
+; digest bits are bits
+(lemma squeeze_bool
+  (forall ((s (Array Int (_ BitVec 64))) (t Int))
+    (! (bits.isbool (select (keccak.squeeze256 s) t)) :pattern ((select (keccak.squeeze256 s) t))))
+  :reveal (keccak.squeeze256))
+(lemma digest_bool
+  (forall ((a (Array Int Int)) (n Int) (d Int))
+    (! (bits.allboolFrom (keccak.digest a n d) 0 256) :pattern ((keccak.digest a n d))))
+  :reveal (keccak.digest) :lemmas (squeeze_bool allboolFrom_intro))
